@@ -509,11 +509,288 @@ class ReadLammpsCentertype(Unit):
         return _replay_dump_readers("center", seed)
 
 
+# =====================================================================================================
+# HOOMD frames (duck-typed): f[s].configuration.{step, dimensions, box}, f[s].particles.{N, typeid, position}
+
+
+def gsd_frames(ctx, T):
+    """a symbolic sequence of T HOOMD frame records (what gsd.hoomd.open returns, as far as the converters use it)"""
+    from pyvc.interp import Ref, new_obj
+    from pyvc.state import Content, cur
+    I, R = z3.IntSort(), z3.RealSort()
+    STEP, DIMS, NP = z3.Function("STEP", I, I), z3.Function("DIMS", I, I), z3.Function("NP", I, I)
+    BOX = z3.Function("BOX", I, I, R)
+    TID = z3.Function("TYPEID", I, I, I)
+    POS = z3.Function("GPOS", I, I, I, R)
+    ctx.array_fact("NP", lambda s: NP(s) >= 1)
+
+    def frame(s):
+        sz = sv.znum(s)
+        n = sv.SV(NP(sz))
+        box = A.new_arr((6,), lambda idx: sv.SV(BOX(sz, sv.znum(idx[0]))), "float", input="configuration.box")
+        tid = A.new_arr((n,), lambda idx: sv.SV(TID(sz, sv.znum(idx[0]))), "int", input="particles.typeid")
+        pos = A.new_arr((n, 3), lambda idx: sv.SV(POS(sz, sv.znum(idx[0]), sv.znum(idx[1]))), "float", input="particles.position")
+        conf = new_obj(None, dict(step=sv.SV(STEP(sz)), dimensions=sv.SV(DIMS(sz)), box=box))
+        part = new_obj(None, dict(N=n, typeid=tid, position=pos))
+        return new_obj(None, dict(configuration=conf, particles=part))
+    f = Ref(cur().alloc(Content("list", A.SeqVal(T, frame))), "list")
+    return f, dict(STEP=STEP, DIMS=DIMS, NP=NP, BOX=BOX, TID=TID, POS=POS)
+
+
+def _snapshots_list(v, T):
+    """(list content, ok) of a returned Snapshots object"""
+    from pyvc.interp import Ref
+    ok = isinstance(v, Ref) and v.kind == "obj" and v.cls is not None and v.cls.name == "Snapshots"
+    if not ok:
+        return None
+    c = v.content
+    lst = c.get("snapshots")
+    if not (isinstance(lst, Ref) and lst.kind == "list"):
+        return None
+    return c, lst.content
+
+
+class ReadGsd(Unit):
+    """read_gsd(f, ndim): one SingleSnapshot per frame, in order (nsnapshots = len(f)); frame s: timestep = configuration.step,
+       nparticle = particles.N, particle_type = typeid + 1, positions = position[:, :ndim], boxlength = box[:ndim], hmatrix = diag(boxlength),
+       boxbounds = per-axis [min, max] of the positions; None (documented warning) when the file's dimensionality differs from ndim."""
+    module = GR
+    qualname = "read_gsd"
+    prop = "C19"
+    timeout = 20
+    with_dcd = False
+
+    def cases(self):
+        return [f"d={d}/{k}" for d in (2, 3) for k in ("frames", "wrong-dimension")]
+
+    def setup(self, ctx, case):
+        d = int(case[2])
+        T = ctx.int("T")
+        ctx.assume(T >= 1)
+        f, sym = gsd_frames(ctx, T)
+        dim0 = sv.SV(sym["DIMS"](z3.IntVal(0)))
+        ctx.assume(sv.cmp("==" if case.endswith("frames") else "!=", dim0, d))
+        sym.update(d=d, T=T, s=ctx.int("s"), i=ctx.int("i"))
+        return [f, d], {}, sym
+
+    def clause_names(self, case):
+        if case.endswith("wrong-dimension"):
+            return ["returns-None"]
+        return ["is-Snapshots", "nsnapshots=number-of-frames", "one-snapshot-per-frame", "frame:is-a-snapshot", "frame:timestep", "frame:nparticle", "frame:types-shifted-to-start-at-one",
+                "frame:positions-cut-to-the-dimension", "frame:boxlength", "frame:hmatrix", "frame:boxbounds-enclose-the-positions", "frame:realbounds-none"]
+
+    def frame_positions(self, inp, s, i, k):
+        return sv.SV(inp["POS"](sv.znum(s), sv.znum(i), z3.IntVal(k)))
+
+    def position_rows(self, inp, s):
+        return sv.SV(inp["NP"](sv.znum(s)))
+
+    def ensures(self, ctx, case, inp, out):
+        names = self.clause_names(case)
+        if len(names) == 1:
+            yield names[0], out.value is None
+            return
+        d, T, s, i = inp["d"], inp["T"], inp["s"], inp["i"]
+        got = _snapshots_list(out.value, T)
+        yield names[0], got is not None
+        if got is None:
+            return
+        c, seq = got
+        yield names[1], sv.cmp("==", c["nsnapshots"], T)
+        n_items = seq.length if isinstance(seq, A.SeqVal) else len(seq)
+        yield names[2], sv.cmp("==", n_items, T)
+        ins = sv.and_(sv.cmp(">=", s, 0), sv.cmp("<", s, T))
+        ctx.state  # noqa
+        from pyvc.state import cur
+        cur().assume(ins)                          # an arbitrary frame index (all clauses below are about frame s)
+        snap = seq.fn(s) if isinstance(seq, A.SeqVal) else None
+        ok = _is_snapshot(snap)
+        yield names[3], bool(ok)
+        if not ok:
+            return
+        sc = snap.content
+        sz = sv.znum(s)
+        n = sv.SV(inp["NP"](sz))
+        yield names[4], sv.cmp("==", sc["timestep"], sv.SV(inp["STEP"](sz)))
+        yield names[5], sv.cmp("==", sc["nparticle"], n)
+        typ, pos = sc["particle_type"], sc["positions"]
+        ini = sv.and_(sv.cmp(">=", i, 0), sv.cmp("<", i, n))
+        okt = isinstance(typ, A.Arr) and typ.ndim == 1 and typ.dtype == "int"
+        yield names[6], sv.and_(bool(okt), sv.cmp("==", typ.shape[0], n) if okt else False,
+                                sv.implies(ini, sv.cmp("==", typ.get((i,)), sv.add(sv.SV(inp["TID"](sz, sv.znum(i))), 1))) if okt else False)
+        okp = isinstance(pos, A.Arr) and pos.ndim == 2 and A.dim_eq_syntactic(pos.shape[1], d)
+        rows = self.position_rows(inp, s)
+        inrow = sv.and_(sv.cmp(">=", i, 0), sv.cmp("<", i, rows))
+        yield names[7], sv.and_(bool(okp), sv.cmp("==", pos.shape[0], rows) if okp else False,
+                                sv.implies(inrow, sv.and_(*[sv.cmp("==", pos.get((i, k)), self.frame_positions(inp, s, i, k)) for k in range(d)])) if okp else False)
+        L = [sv.SV(inp["BOX"](sz, z3.IntVal(k))) for k in range(d)]
+        yield names[8], _arr_eq(sc.get("boxlength"), L)
+        yield names[9], _arr_eq(sc.get("hmatrix"), [[L[a] if a == b2 else 0 for b2 in range(d)] for a in range(d)])
+        # bounds: [min, max] of the GSD positions per axis — stated as enclosure (the assumed min/max contract gives attainment)
+        bb = sc.get("boxbounds")
+        okb = isinstance(bb, A.Arr) and tuple(bb.shape) == (d, 2)
+        if okb:
+            encl, inst = [], []
+            for k in range(d):
+                gp = sv.SV(inp["POS"](sz, sv.znum(i), z3.IntVal(k)))
+                encl.append(sv.implies(ini, sv.and_(sv.cmp("<=", bb.get((k, 0)), gp), sv.cmp("<=", gp, bb.get((k, 1))))))
+            # instances of the assumed bound of ndarray.min / max (every element is >= the minimum, <= the maximum) for the reductions
+            # the loop body performs, at frame s and the arbitrary particle i (the loop index of the engine's run is replaced by s)
+            mine = {"T", "s", "i", "T_dcd", "N_dcd"}
+            seen = set()
+            for q in cur().qfacts:
+                if q[0] not in ("min", "max") or len(q) < 6:
+                    continue
+                info = q[5]
+                ps = [sv.znum(s) if (z3.is_int(c_) and c_.decl().name() not in mine) else c_ for c_ in info["frees"]]
+                key_t, nn, ext = info["inst"](i, ps)
+                fact = sv.implies(sv.and_(sv.cmp(">=", i, 0), sv.cmp("<", i, nn)), sv.cmp("<=" if q[0] == "min" else ">=", ext, key_t))
+                if fact.t.get_id() not in seen:
+                    seen.add(fact.t.get_id())
+                    inst.append(fact)
+            yield names[10], sv.and_(*encl), {"assume": inst}
+        else:
+            yield names[10], False
+        yield names[11], sc.get("realbounds", 0) is None
+
+    def replay(self, case, clause, model, seed):
+        return _replay_gsd(self.with_dcd, seed)
+
+
+class ReadGsdDcd(ReadGsd):
+    """read_gsd_dcd(f_gsd, f_dcd, ndim): as read_gsd, but the positions of frame s are the DCD positions of frame s cut to the dimension;
+       None (documented warnings) when the dimensionality, the number of frames or the particle number of the two files disagree."""
+    qualname = "read_gsd_dcd"
+    with_dcd = True
+
+    def cases(self):
+        return [f"d={d}/{k}" for d in (2, 3) for k in ("frames", "wrong-dimension", "frame-count-mismatch", "particle-number-mismatch")]
+
+    def setup(self, ctx, case):
+        from pyvc.interp import new_obj
+        from pyvc.lib import native
+        d = int(case[2])
+        kind = case.split("/")[1]
+        T = ctx.int("T")
+        ctx.assume(T >= 1)
+        f, sym = gsd_frames(ctx, T)
+        dim0 = sv.SV(sym["DIMS"](z3.IntVal(0)))
+        ctx.assume(sv.cmp("!=" if kind == "wrong-dimension" else "==", dim0, d))
+        Td, Nd = ctx.int("T_dcd"), ctx.int("N_dcd")
+        ctx.assume(Td >= 1)
+        ctx.assume(Nd >= 1)
+        np0 = sv.SV(sym["NP"](z3.IntVal(0)))
+        if kind != "wrong-dimension":
+            ctx.assume(sv.cmp("!=" if kind == "frame-count-mismatch" else "==", Td, T))
+            if kind != "frame-count-mismatch":
+                ctx.assume(sv.cmp("!=" if kind == "particle-number-mismatch" else "==", Nd, np0))
+        dcd = ctx.array("DCD", (Td, Nd, 3), "float", origin="f_dcd.read()[0]")
+        reads = []
+
+        @native
+        def read(interp, *a, **k):
+            reads.append(1)
+            return (dcd, None, None)
+
+        @native
+        def close(interp, *a, **k):
+            return None
+        fd = new_obj(None, dict(read=read, close=close))
+        sym.update(d=d, T=T, s=ctx.int("s"), i=ctx.int("i"), dcd=dcd, kind=kind, Nd=Nd)
+        return [f, fd, d], {}, sym
+
+    def clause_names(self, case):
+        if not case.endswith("frames"):
+            return ["returns-None"]
+        return ReadGsd.clause_names(self, case)
+
+    def frame_positions(self, inp, s, i, k):
+        return inp["dcd"].get((s, i, k))
+
+    def position_rows(self, inp, s):
+        # a DCD trajectory has one particle number for all frames (checked by the code against frame 0 of the GSD file)
+        return inp["Nd"]
+
+
+def _replay_gsd(with_dcd, seed):
+    """duck-typed HOOMD frames (no gsd / mdtraj needed): the real converters must return the documented conversion"""
+    import importlib
+    import random
+    from types import SimpleNamespace
+
+    import numpy as np
+    G = importlib.import_module(GR)
+    rng = random.Random(seed)
+    nrng = np.random.default_rng(seed)
+
+    class Traj(list):
+        pass
+
+    class Dcd:
+        def __init__(self, xyz):
+            self.xyz = xyz
+
+        def read(self):
+            return self.xyz, None, None
+
+        def close(self):
+            pass
+    for trial in range(60):
+        d = rng.choice([2, 3])
+        T = rng.randint(1, 4)
+        N = rng.randint(1, 6)
+        frames = Traj()
+        for s in range(T):
+            n = N if (with_dcd or trial % 3) else rng.randint(1, 6)
+            pos = nrng.uniform(-4, 4, size=(n, 3))
+            if d == 2:
+                pos[:, 2] = 0.0
+            frames.append(SimpleNamespace(configuration=SimpleNamespace(step=rng.randint(0, 10 ** 6), dimensions=d, box=np.array([rng.uniform(5, 9) for _ in range(3)] + [0.0, 0.0, 0.0])),
+                                          particles=SimpleNamespace(N=n, typeid=nrng.integers(0, 3, size=n), position=pos)))
+        inputs = {"ndim": d, "frames": T, "N": [fr.particles.N for fr in frames]}
+        xyz = nrng.uniform(-20, 20, size=(T, N, 3))
+        try:
+            got = G.read_gsd_dcd(frames, Dcd(xyz), d) if with_dcd else G.read_gsd(frames, d)
+        except Exception as e:
+            return {"ran": True, "failed": True, "inputs": inputs, "searched": trial + 1,
+                    "detail": f"{'read_gsd_dcd' if with_dcd else 'read_gsd'} on {T} duck-typed frame(s) raises {type(e).__name__}: {e}"}
+        bad = None
+        if got is None or got.nsnapshots != T or len(got.snapshots) != T:
+            bad = f"returned {got if got is None else (got.nsnapshots, len(got.snapshots))}, expected {T} snapshots"
+        else:
+            for s, (g, fr) in enumerate(zip(got.snapshots, frames)):
+                want_pos = xyz[s][:, :d] if with_dcd else fr.particles.position[:, :d]
+                if g.timestep != fr.configuration.step or g.nparticle != fr.particles.N:
+                    bad = f"frame {s}: timestep/nparticle {g.timestep}/{g.nparticle}"
+                elif not np.array_equal(np.asarray(g.particle_type), fr.particles.typeid + 1):
+                    bad = f"frame {s}: particle_type {np.asarray(g.particle_type).tolist()}, expected typeid + 1 = {(fr.particles.typeid + 1).tolist()}"
+                elif g.positions is None or np.asarray(g.positions).shape != want_pos.shape or not np.array_equal(np.asarray(g.positions), want_pos):
+                    bad = f"frame {s}: positions are not the {'DCD' if with_dcd else 'GSD'} positions cut to {d} dimensions"
+                elif not np.array_equal(np.asarray(g.boxlength), fr.configuration.box[:d]) or not np.array_equal(np.asarray(g.hmatrix), np.diag(fr.configuration.box[:d])):
+                    bad = f"frame {s}: boxlength / hmatrix"
+                elif not np.array_equal(np.asarray(g.boxbounds), np.column_stack((fr.particles.position[:, :d].min(axis=0), fr.particles.position[:, :d].max(axis=0)))):
+                    bad = f"frame {s}: boxbounds"
+                if bad:
+                    break
+        if bad:
+            return {"ran": True, "failed": True, "inputs": inputs, "detail": bad, "searched": trial + 1}
+        # documented refusals
+        wrong = G.read_gsd_dcd(frames, Dcd(xyz), 5 - d) if with_dcd else G.read_gsd(frames, 5 - d)
+        if wrong is not None:
+            return {"ran": True, "failed": True, "inputs": inputs, "detail": "a dimensionality different from the file's is not refused (None expected)"}
+        if with_dcd:
+            if G.read_gsd_dcd(frames, Dcd(xyz[:, :0 + max(N - 1, 0)] if N > 1 else nrng.uniform(size=(T, N + 1, 3))), d) is not None:
+                return {"ran": True, "failed": True, "inputs": inputs, "detail": "inconsistent particle numbers of GSD and DCD are not refused (None expected)"}
+            if G.read_gsd_dcd(frames, Dcd(nrng.uniform(size=(T + 1, N, 3))), d) is not None:
+                return {"ran": True, "failed": True, "inputs": inputs, "detail": "inconsistent frame numbers of GSD and DCD are not refused (None expected)"}
+    return {"ran": True, "failed": False, "searched": 60}
+
+
 def _replay_dump_readers(which, seed):
     return {"ran": False, "failed": False, "error": "todo"}
 
 
-UNITS = [WriteDumpHeader(), WriteDataHeader(), ReadLammpsVector(), ReadLammpsCentertype()]
+UNITS = [WriteDumpHeader(), WriteDataHeader(), ReadLammpsVector(), ReadLammpsCentertype(), ReadGsd(), ReadGsdDcd()]
 
 
 MANIFEST = {
